@@ -8,6 +8,7 @@ package absnfs
 
 import (
 	"fmt"
+	"runtime"
 	"sync/atomic"
 	"time"
 )
@@ -186,8 +187,72 @@ func (n *AbsfsNFS) UpdateTuningOptions(fn func(*TuningOptions)) {
 		updated.Timeouts = &tCopy
 	}
 	fn(&updated)
+	applyTuningDefaults(&updated)
 	n.tuning.Store(&updated)
 	n.applyTuningSideEffects(old, &updated)
+}
+
+// applyTuningDefaults replaces unset (zero, negative or nil) tuning fields by the
+// defaults New applies, so that a runtime update can never leave the server with a
+// zero transfer size or zero timeouts.
+func applyTuningDefaults(t *TuningOptions) {
+	if t.TransferSize <= 0 {
+		t.TransferSize = 65536
+	}
+	if t.AttrCacheTimeout <= 0 {
+		t.AttrCacheTimeout = 5 * time.Second
+	}
+	if t.AttrCacheSize <= 0 {
+		t.AttrCacheSize = 10000
+	}
+	if t.NegativeCacheTimeout <= 0 {
+		t.NegativeCacheTimeout = 5 * time.Second
+	}
+	if t.DirCacheTimeout <= 0 {
+		t.DirCacheTimeout = 10 * time.Second
+	}
+	if t.DirCacheMaxEntries <= 0 {
+		t.DirCacheMaxEntries = 1000
+	}
+	if t.DirCacheMaxDirSize <= 0 {
+		t.DirCacheMaxDirSize = 10000
+	}
+	if t.MaxWorkers <= 0 {
+		t.MaxWorkers = runtime.NumCPU() * 4
+	}
+	if t.MaxConnections <= 0 {
+		t.MaxConnections = 100
+	}
+	if t.IdleTimeout <= 0 {
+		t.IdleTimeout = 5 * time.Minute
+	}
+	if t.SendBufferSize <= 0 {
+		t.SendBufferSize = 262144
+	}
+	if t.ReceiveBufferSize <= 0 {
+		t.ReceiveBufferSize = 262144
+	}
+	if t.Timeouts == nil {
+		t.Timeouts = &TimeoutConfig{}
+	}
+	for _, d := range []struct {
+		v   *time.Duration
+		def time.Duration
+	}{
+		{&t.Timeouts.ReadTimeout, 30 * time.Second},
+		{&t.Timeouts.WriteTimeout, 60 * time.Second},
+		{&t.Timeouts.LookupTimeout, 10 * time.Second},
+		{&t.Timeouts.ReaddirTimeout, 30 * time.Second},
+		{&t.Timeouts.CreateTimeout, 15 * time.Second},
+		{&t.Timeouts.RemoveTimeout, 15 * time.Second},
+		{&t.Timeouts.RenameTimeout, 20 * time.Second},
+		{&t.Timeouts.HandleTimeout, 5 * time.Second},
+		{&t.Timeouts.DefaultTimeout, 30 * time.Second},
+	} {
+		if *d.v <= 0 {
+			*d.v = d.def
+		}
+	}
 }
 
 // UpdatePolicyOptions swaps policy using drain-and-swap.
